@@ -1197,7 +1197,7 @@ class CompilerPassGatherCode(CompilerPass):
 
         for line_num, line in enumerate(new_code):
             for label, target_line in label_map.items():
-                pattern = r"\b{}\b".format(re.escape(label))
+                pattern = r"(?<![\w.]){}(?![\w.])".format(re.escape(label))
                 if re.search(pattern, line):
                     if relative_numbers:
                         offset = target_line - line_num
